@@ -423,7 +423,11 @@ def run(ctx) -> None:
     from .c14 import r14_3
     from .c15 import r15_5
     ctx.guard_as("R03.8", r14_3)
+    from .c14 import r14_11
+    ctx.guard_as("R03.8", r14_11)
     ctx.guard_as("R03.8", r15_5)
+    from .c14 import r14_4_5
+    ctx.guard_as("R03.8", r14_4_5)  # the key picked for signing without a kid is a member of the set as it is now
     ctx.guard(r03_7)
     ctx.guard(r03_6)
     ctx.guard(r03_1)
